@@ -94,6 +94,11 @@ theorem gumbel_ln_pdf_eq_log_pdf (d : Gumbel ℝ) (x : ℝ) :
 /-- Triangular: `ln_pdf = log pdf` at every argument (definitional) -/
 theorem triangular_ln_pdf_eq_log_pdf (d : Triangular ℝ) (x : ℝ) :
     Triangular.ln_pdf d x = Real.log (Triangular.pdf d x) := rfl
+/-- Triangular: at the mode `ln_pdf = log (2/(max-min))` for every parameter triple, also `mode = min`
+    and `mode = max` (the `x == c` branch added by the fix; before it `pdf` was `0/0` at `mode = min`) -/
+theorem triangular_ln_pdf_at_mode (d : Triangular ℝ) :
+    Triangular.ln_pdf d d.f_mode = Real.log (2 / (d.f_max - d.f_min)) := by
+  unfold Triangular.ln_pdf Triangular.pdf; model_norm
 
 /-- LogNormal: `ln_pdf = log pdf` wherever `pdf > 0` (scale > 0) -/
 theorem lognormal_ln_pdf_eq_log_pdf (d : LogNormal ℝ) (h : 0 < d.f_scale) (x : ℝ)
@@ -274,15 +279,22 @@ theorem discrete_uniform_ln_pmf_eq_log_pmf (d : DiscreteUniform) (x : Int)
   · exact absurd hp (lt_irrefl _)
 
 
-/-- Geometric: `ln_pmf = log pmf` wherever `pmf > 0`, for `1 ≤ k < 2^31`.  PARTIAL: the bound `k < 2^31` cannot be dropped — `pmf` computes its exponent as `k as i32 - 1`, which wraps (see `geometric_ln_pmf_counterexample`). -/
-theorem geometric_ln_pmf_eq_log_pmf_partial (d : Geometric ℝ) (hp0 : 0 < d.f_p) (hp1 : d.f_p ≤ 1)
-    (x : Int) (hx1 : 1 ≤ x) (hx : x < 2 ^ 31) (hpos : 0 < Geometric.pmf d x) :
+/-- Geometric: `ln_pmf = log pmf` wherever `pmf > 0`, for EVERY `u64` argument `k` and every accepted
+    `p ∈ (0,1]`.  (Was `…_partial` with the bound `k < 2^31`: `pmf` used to compute its exponent as
+    `k as i32 - 1`, which wrapped; it now computes `(1-p).powf((k-1) as f64)`, so the bound is gone.) -/
+theorem geometric_ln_pmf_eq_log_pmf (d : Geometric ℝ) (hp0 : 0 < d.f_p) (hp1 : d.f_p ≤ 1)
+    (x : Int) (hx0 : 0 ≤ x) (hpos : 0 < Geometric.pmf d x) :
     Geometric.ln_pmf d x = Real.log (Geometric.pmf d x) := by
+  have hx1 : 1 ≤ x := by
+    rcases (by omega : x = 0 ∨ 1 ≤ x) with rfl | h
+    · exfalso; unfold Geometric.pmf at hpos; model_norm; exact lt_irrefl _ hpos
+    · exact h
+  have hu : usub x 1 = x - 1 := by unfold usub; rw [if_neg (by omega)]
   unfold Geometric.ln_pmf Geometric.pmf at *
-  rw [wrapI32_of_small x (by omega) hx] at *
   model_norm
-  have hx0 : x ≠ 0 := by omega
-  rw [if_neg hx0] at hpos ⊢
+  have hx0' : x ≠ 0 := by omega
+  rw [if_neg hx0', hu, Real.rpow_intCast] at hpos
+  rw [if_neg hx0', if_neg hx0', hu, Real.rpow_intCast]
   split_ifs with h1 h2
   · rw [h1.1, h1.2]; simp
   · exfalso
@@ -293,18 +305,18 @@ theorem geometric_ln_pmf_eq_log_pmf_partial (d : Geometric ℝ) (hp0 : 0 < d.f_p
       rcases hp1.lt_or_eq with h | h
       · linarith
       · exact absurd h h2
-    have hu : usub x 1 = x - 1 := by unfold usub; rw [if_neg (by omega)]
-    rw [hu, Real.log_mul (zpow_pos hq _).ne' hp0.ne', Real.log_zpow]
+    rw [Real.log_mul (zpow_pos hq _).ne' hp0.ne', Real.log_zpow]
 
-/-- Geometric, FALSE for large k: at `p = 1/2`, `k = 2^32 + 1` the model has `pmf = 1/2` (exponent `k as i32 - 1 = 0`) while `ln_pmf = (2^32 + 1)·ln(1/2)`. -/
-theorem geometric_ln_pmf_counterexample :
-    ∃ (d : Geometric ℝ) (x : Int), 0 < d.f_p ∧ d.f_p ≤ 1 ∧ 1 ≤ x ∧ x ≤ u64Max ∧
-      0 < Geometric.pmf d x ∧ Geometric.ln_pmf d x ≠ Real.log (Geometric.pmf d x) := by
-  refine ⟨⟨1 / 2⟩, 2 ^ 32 + 1, by norm_num, by norm_num, by norm_num, by norm_num [u64Max], ?_, ?_⟩
-  · unfold Geometric.pmf wrapI32; norm_num
-  · unfold Geometric.pmf Geometric.ln_pmf wrapI32 usub
-    model_norm
-    norm_num
+/-- Geometric, large `k` (the former counterexample witness): at `p = 1/2`, `k = 2^32 + 1 ≤ u64::MAX`
+    the model now has `pmf = (1/2)^(2^32) · 1/2 > 0` and `ln_pmf = 2^32·ln(1/2) + ln(1/2) = log pmf`
+    (before the fix `pmf` was `1/2` there: exponent `k as i32 - 1 = 0`). -/
+theorem geometric_ln_pmf_large_k :
+    ∃ (d : Geometric ℝ) (x : Int), 0 < d.f_p ∧ d.f_p ≤ 1 ∧ 2 ^ 31 ≤ x ∧ x ≤ u64Max ∧
+      0 < Geometric.pmf d x ∧ Geometric.ln_pmf d x = Real.log (Geometric.pmf d x) := by
+  have hpos : 0 < Geometric.pmf (⟨1 / 2⟩ : Geometric ℝ) (2 ^ 32 + 1) := by
+    unfold Geometric.pmf usub; model_norm; norm_num
+  exact ⟨⟨1 / 2⟩, 2 ^ 32 + 1, by norm_num, by norm_num, by norm_num, by norm_num [u64Max], hpos,
+    geometric_ln_pmf_eq_log_pmf _ (by norm_num) (by norm_num) _ (by norm_num) hpos⟩
 
 /-! ### non-vacuity: every hypothesis set above is satisfiable -/
 example : ∃ (d : Exp ℝ) (x : ℝ), 0 < d.f_rate ∧ 0 < Exp.pdf d x :=
@@ -338,10 +350,10 @@ example : ∃ (_ : SF ℝ) (_ : GammaDensitySpec) (d : Chi) (x : ℝ),
     rw [if_neg hi]
     show 0 < _ / Real.Gamma 1
     positivity⟩
-example : ∃ (d : Geometric ℝ) (x : Int), 0 < d.f_p ∧ d.f_p ≤ 1 ∧ 1 ≤ x ∧ x < 2 ^ 31 ∧
+example : ∃ (d : Geometric ℝ) (x : Int), 0 < d.f_p ∧ d.f_p ≤ 1 ∧ 0 ≤ x ∧
     0 < Geometric.pmf d x :=
-  ⟨⟨1 / 2⟩, 1, by norm_num, by norm_num, by norm_num, by norm_num,
-    by unfold Geometric.pmf wrapI32; model_norm; norm_num⟩
+  ⟨⟨1 / 2⟩, 1, by norm_num, by norm_num, by norm_num,
+    by unfold Geometric.pmf usub; model_norm; norm_num⟩
 example : ∃ (d : DiscreteUniform) (x : Int), d.f_min ≤ d.f_max ∧ 0 < DiscreteUniform.pmf (α := ℝ) d x :=
   ⟨⟨0, 1⟩, 0, by norm_num, by unfold DiscreteUniform.pmf; model_norm; norm_num⟩
 example : ∃ (_ : SF ℝ) (d : Bernoulli ℝ) (x : Int), d.f_b.f_n = 1 ∧ 0 < Bernoulli.pmf d x :=
@@ -353,8 +365,12 @@ example : ∃ (d : Uniform ℝ) (x : ℝ), x < d.f_min ∨ d.f_max < x := ⟨⟨
 example : ∃ (d : Pareto ℝ) (x : ℝ), x < d.f_scale := ⟨⟨1, 1⟩, 0, by norm_num⟩
 example : ∃ (d : Levy ℝ) (x : ℝ), x ≤ d.f_mu := ⟨⟨0, 1⟩, 0, le_rfl⟩
 example : ∃ (_ : Beta ℝ) (x : ℝ), ¬ (((0.0 : ℝ) ≤ x) ∧ (x ≤ (1.0 : ℝ))) := ⟨⟨1, 1⟩, 2, by norm_num⟩
-example : ∃ (d : Triangular ℝ) (x : ℝ), ¬ (d.f_min ≤ x ∧ x ≤ d.f_mode) ∧ ¬ (d.f_mode < x ∧ x ≤ d.f_max) :=
-  ⟨⟨0, 2, 1⟩, 3, by norm_num, by norm_num⟩
+example : ∃ (d : Triangular ℝ) (x : ℝ), ¬ ((x == d.f_mode) = true) ∧ ¬ (d.f_min ≤ x ∧ x < d.f_mode) ∧
+    ¬ (d.f_mode < x ∧ x ≤ d.f_max) :=
+  ⟨⟨0, 2, 1⟩, 3, by simp only [real_beq]; norm_num, by norm_num, by norm_num⟩
+example : ∃ (d : Triangular ℝ) (x : ℝ), (x == d.f_mode) = true ∧ d.f_mode = d.f_min :=
+  ⟨⟨0, 2, 0⟩, 0, by simp only [real_beq], rfl⟩
 example : ∃ (d : DiscreteUniform) (x : Int), ¬ ((d.f_min ≤ x) ∧ (x ≤ d.f_max)) := ⟨⟨0, 1⟩, 2, by norm_num⟩
+example : ∃ (d : Hypergeometric) (x : Int), d.f_draws < x ∧ x ≤ u64Max := ⟨⟨10, 5, 3⟩, 4, by norm_num, by norm_num [u64Max]⟩
 
 end Statrs.Props.C04
